@@ -2,6 +2,8 @@
 
 package lossy
 
+import "slices"
+
 // VerifStripes reports the current number of stripes (0 before first use).
 func (s *Striped[K, V]) VerifStripes() int {
 	bs := s.striped.Load()
@@ -13,3 +15,37 @@ func (s *Striped[K, V]) VerifStripes() int {
 
 // VerifBufferSize reports the ring capacity of this build.
 func VerifBufferSize() int { return bufferSize }
+
+// VerifDouble doubles the stripe table the way expandOrRetry does after two failed CASes of one Add (same copy,
+// same publication), so that scenarios can start from the reachable states with empty stripes between rings
+// without spending four preemptions on getting there. No-op before first use or at the maximum length.
+func (s *Striped[K, V]) VerifDouble() bool {
+	bs := s.striped.Load()
+	if bs == nil || bs.len >= s.maxLen {
+		return false
+	}
+	length := bs.len << 1
+	// (the element type is sync/atomic's Pointer or the scheduler's shim, depending on the build: inferred)
+	st := &striped[K, V]{
+		buffers: slices.Grow(bs.buffers[:0:0], length)[:length],
+		len:     length,
+	}
+	for j := 0; j < bs.len; j++ {
+		st.buffers[j].Store(bs.buffers[j].Load())
+	}
+	s.striped.Store(st)
+	return true
+}
+
+// VerifLayout reports which stripes have a ring attached.
+func (s *Striped[K, V]) VerifLayout() []bool {
+	bs := s.striped.Load()
+	if bs == nil {
+		return nil
+	}
+	out := make([]bool, bs.len)
+	for i := range out {
+		out[i] = bs.buffers[i].Load() != nil
+	}
+	return out
+}
